@@ -522,6 +522,29 @@ func condAlts(v ssa.Value, want bool, depth int) [][]Fact {
 		}
 		break
 	}
+	// err == nil / err != nil where err is the error result of a checking helper of the
+	// repository (`if err := checkSize(n); err != nil { return err }`): on the nil side,
+	// what holds on the helper's paths to `return nil`
+	if bo, ok := v.(*ssa.BinOp); ok && (bo.Op == token.EQL || bo.Op == token.NEQ) {
+		var other ssa.Value
+		if IsNilConst(bo.Y) {
+			other = bo.X
+		} else if IsNilConst(bo.X) {
+			other = bo.Y
+		}
+		if other != nil && IsErrorType(other.Type()) && (bo.Op == token.EQL) == want {
+			if call, idx := CallResult(Canon(other)); call != nil {
+				if alts, ok := helperNilErrAlts(call, idx, depth+1); ok {
+					cmp, neg := CondCmp(v)
+					holds := want
+					if neg {
+						holds = !holds
+					}
+					return conjAlts([][]Fact{{{cmp, holds}}}, alts)
+				}
+			}
+		}
+	}
 	if phi, ok := v.(*ssa.Phi); ok && isBoolType(phi.Type()) {
 		var nonConst []int
 		allSame, constVal := true, false
@@ -762,6 +785,70 @@ func helperAlts(call *ssa.Call, idx int, want bool, depth int) ([][]Fact, bool) 
 			continue
 		}
 		out = append(out, conjAlts(path, condAlts(rv, want, depth+1))...)
+	}
+	if len(out) == 0 || len(out) > 16 {
+		return nil, false
+	}
+	for i := range out {
+		for j := range out[i] {
+			out[i][j].Cmp.X = subst(out[i][j].Cmp.X)
+			out[i][j].Cmp.Y = subst(out[i][j].Cmp.Y)
+		}
+	}
+	return out, true
+}
+
+// helperNilErrAlts summarises a call to a small checking function of the
+// repository whose result idx is an error: what holds when that error is nil.
+// Sound only if every return is either the nil constant or a certainly non-nil
+// error (built on the spot); otherwise no summary is given.
+func helperNilErrAlts(call *ssa.Call, idx int, depth int) ([][]Fact, bool) {
+	if depth > 5 {
+		return nil, false
+	}
+	h := call.Call.StaticCallee()
+	if h == nil || len(h.Blocks) == 0 || len(h.Blocks) > 40 || h.Pkg == nil || !strings.HasPrefix(h.Pkg.Pkg.Path(), Module) {
+		return nil, false
+	}
+	if idx < 0 {
+		idx = 0
+	}
+	args := call.Call.Args
+	subst := func(v ssa.Value) ssa.Value {
+		if p, ok := Canon(v).(*ssa.Parameter); ok && p.Parent() == h {
+			for i, hp := range h.Params {
+				if hp == p && i < len(args) {
+					return args[i]
+				}
+			}
+		}
+		return v
+	}
+	var out [][]Fact
+	for _, r := range Returns(h) {
+		if idx >= len(r.Results) {
+			return nil, false
+		}
+		if len(r.Block().Preds) == 0 && r.Block() != h.Blocks[0] {
+			continue
+		}
+		rv := RetVal(r, idx)
+		if IsNilConst(rv) {
+			out = append(out, pathAlts(r.Block(), depth)...)
+			continue
+		}
+		// certainly non-nil: built by a call (fmt.Errorf, errors.New, a constructor) or boxed on the spot
+		switch x := Canon(rv).(type) {
+		case *ssa.Call:
+			if f := x.Call.StaticCallee(); f != nil && (f.Name() == "Errorf" || f.Name() == "New") {
+				continue
+			}
+			return nil, false
+		case *ssa.MakeInterface:
+			continue
+		default:
+			return nil, false
+		}
 	}
 	if len(out) == 0 || len(out) > 16 {
 		return nil, false
